@@ -471,9 +471,9 @@ impl ThreadLocalPool {
 
         if let Some(mut buffer) = buffers.pop_front() {
             buffer.clear();
-            if buffer.capacity() < size {
-                buffer.reserve(size - buffer.capacity());
-            }
+            // The buffer is empty now: reserve() counts from its length, so ask
+            // for the whole size (a no-op when the capacity already suffices).
+            buffer.reserve(size);
             buffer
         } else {
             BytesMut::with_capacity(size.max(buffer_size))
